@@ -119,6 +119,10 @@ def _mk_alloc(name):
     orig = getattr(_np, name)
 
     def w(*a, **k):
+        if 'dtype' in k and k['dtype'] in (_np.float64, float, 'float64', 'float') and _sym_caller() \
+                and engine() is not None:
+            k = dict(k)
+            del k['dtype']
         if _sym_caller() and engine() is not None and 'dtype' not in k and \
                 not (name in ('zeros', 'ones', 'empty') and len(a) > 1) and \
                 not (name == 'full' and len(a) > 2):
